@@ -15,6 +15,16 @@ R6 f'..{e}..'                -> XPrim "fstring" [parts]                         
 R7 e[i] (no slice)           -> XPrim "getitem" [e; i]                           (lists, tuples, mappings, strings)
 R8 {a, b, c} as right operand of in / not in -> the list of its elements
 R9 f(args, k=v) on an opaque callable -> XCall (PRef "<name>:k") (args ++ [v]);  super().m(args) -> XPrim "super.m" (self :: args)
+R10 effects: print(x, file=self.outfile) / print(x) / self.error(x) as STATEMENTS -> append ("outfile"|"stdout"|"error", x) to
+    the reserved attribute self.$events (the shell's output is the list of what was written, in order)
+R11 self.<attr>.<m>(args) with m a declared mutator (setstr) -> XMethod (TSelf attr) m args ("method:m" returns the new object)
+R12 `except E as ex` where ex occurs only as str(ex): str(ex) -> XPrim "exc_text" [] (uninterpreted text)
+R13 try with two handlers whose first handler consists of effect statements only -> nested STry
+R14 for x in E (E a name or attribute) -> SFor x (XPrim "iter" [E])
+R15 a in E / a not in E, E not a literal -> XPrim "contains" [E; a]; E a module-level global -> XPrim "contains:<name>" [a]
+R16 value receivers (self_name=None: `self` is an ordinary value): setattr(x, n, v) as a statement, x a local ->
+    x = XPrim "builtins.setattr" [x; n; v];  x.a.b = v, x a local -> x = XPrim "setpath:a.b" [x; v]
+A function may take **kwargs (dropped) when the body never mentions it.
 """
 import ast
 import inspect
@@ -22,7 +32,7 @@ import inspect
 from . import py2mini
 from .py2mini import FuncTranslator, Untranslatable, glist, gstr, gopt
 
-PRIMS = ('builtins.all', 'builtins.any', 'builtins.sorted', 'builtins.enumerate', 'builtins.id', 'builtins.getattr',
+PRIMS = ('shlex.split', 'builtins.all', 'builtins.any', 'builtins.sorted', 'builtins.enumerate', 'builtins.id', 'builtins.getattr',
          'builtins.repr', 'builtins.str', 'builtins.type', 'builtins.setattr')
 
 
@@ -35,8 +45,35 @@ def qualname(obj):
 
 
 class ApiTranslator(FuncTranslator):
+    MUTATORS = {'setstr'}
+    EFFECT_METHODS = {'error'}
+
     def __init__(self, func, refs, self_name='self', prims=()):
-        super().__init__(func, refs, self_name=self_name, prims=prims)
+        import textwrap
+        self.func = func
+        self.refs = refs
+        self.self_name = self_name
+        self.prims = set(prims)
+        fd = ast.parse(textwrap.dedent(inspect.getsource(func))).body[0]
+        if not isinstance(fd, ast.FunctionDef):
+            raise Untranslatable(f'not a plain function: {ast.dump(fd)[:80]}')
+        self.fd = fd
+        a = fd.args
+        if a.vararg or a.kwonlyargs or a.posonlyargs:
+            raise Untranslatable('only positional parameters are supported')
+        if a.kwarg and any(isinstance(n, ast.Name) and n.id == a.kwarg.arg for n in ast.walk(fd)):
+            raise Untranslatable('**kwargs is used')
+        self.params = [x.arg for x in a.args]
+        self.defaults = a.defaults
+        self.locals = set(self.params)
+        for n in ast.walk(fd):
+            if isinstance(n, ast.Name) and isinstance(n.ctx, ast.Store):
+                self.locals.add(n.id)
+        cv = inspect.getclosurevars(func)
+        self.free = dict(cv.builtins)
+        self.free.update(cv.globals)
+        self.free.update(cv.nonlocals)
+        self.nonlocals = set(cv.nonlocals)
         self.alias = {}
         # R2: locals assigned exactly once, from a set comprehension
         stores = {}
@@ -48,6 +85,27 @@ class ApiTranslator(FuncTranslator):
                     if isinstance(t, ast.Name):
                         stores.setdefault(t.id, []).append(None)
         self.settyped = {k for k, v in stores.items() if len(v) == 1 and isinstance(v[0], ast.SetComp)}
+
+    def is_selfattr(self, e):
+        return isinstance(e, ast.Attribute) and isinstance(e.value, ast.Name) and e.value.id == self.self_name
+
+    def effect(self, s):
+        """R10: the event an effect statement appends, or None"""
+        if not (isinstance(s, ast.Expr) and isinstance(s.value, ast.Call)):
+            return None
+        c = s.value
+        if isinstance(c.func, ast.Name) and c.func.id == 'print' and 'print' not in self.locals and len(c.args) == 1:
+            kws = {k.arg: k.value for k in c.keywords}
+            if not kws:
+                chan = 'stdout'
+            elif set(kws) == {'file'} and self.is_selfattr(kws['file']) and kws['file'].attr == 'outfile':
+                chan = 'outfile'
+            else:
+                return None
+            return chan, c.args[0]
+        if self.is_selfattr(c.func) and c.func.attr in self.EFFECT_METHODS and len(c.args) == 1 and not c.keywords:
+            return c.func.attr, c.args[0]
+        return None
 
     def static(self, e):
         """the object a dotted free name denotes, or Untranslatable"""
@@ -115,8 +173,28 @@ class ApiTranslator(FuncTranslator):
             op = 'CIn' if isinstance(e.ops[0], ast.In) else 'CNotIn'
             items = glist([self.expr(x) for x in e.comparators[0].elts])
             return f'(XCompare {self.expr(e.left)} [({op}, (XList {items}))])'
+        if isinstance(e, ast.Compare) and len(e.ops) == 1 and isinstance(e.ops[0], (ast.In, ast.NotIn)) \
+                and not isinstance(e.comparators[0], (ast.List, ast.Tuple)):               # R15
+            c = e.comparators[0]
+            try:
+                obj = self.static(c)
+            except Untranslatable:
+                obj = None
+            if obj is not None and isinstance(c, ast.Name) and isinstance(obj, (dict, set, frozenset, list, tuple)):
+                mod = getattr(self.func, '__module__', '?')
+                t = f'(XPrim {gstr("contains:" + mod + "." + c.id)} [{self.expr(e.left)}])'
+            else:
+                t = f'(XPrim "contains" [{self.expr(c)}; {self.expr(e.left)}])'
+            return t if isinstance(e.ops[0], ast.In) else f'(XNot {t})'
         if isinstance(e, ast.Call):
             f = e.func
+            if isinstance(f, ast.Name) and f.id == 'str' and len(e.args) == 1 and isinstance(e.args[0], ast.Name) \
+                    and e.args[0].id in getattr(self, 'exc_names', ()):                    # R12
+                return '(XPrim "exc_text" [])'
+            if isinstance(f, ast.Attribute) and f.attr in self.MUTATORS and self.is_selfattr(f.value) \
+                    and not e.keywords and not any(isinstance(a, ast.Starred) for a in e.args):  # R11
+                return (f'(XMethod (TSelf {gstr(f.value.attr)}) {gstr(f.attr)} '
+                        f'{glist([self.expr(a) for a in e.args])})')
             if isinstance(f, ast.Name) and f.id == 'isinstance' and f.id not in self.locals and len(e.args) == 2 \
                     and not e.keywords:                                                 # R5
                 c = e.args[1]
@@ -150,6 +228,55 @@ class ApiTranslator(FuncTranslator):
         return super().expr(e)
 
     def stmt(self, s):
+        ev = self.effect(s)
+        if ev is not None:                                                              # R10
+            chan, arg = ev
+            return (f'(SExpr (XMethod (TSelf "$events") "append" '
+                    f'[(XTuple [{self.strconst(chan)}; {self.expr(arg)}])]))')
+        if isinstance(s, ast.For) and isinstance(s.iter, (ast.Name, ast.Attribute)) and isinstance(s.target, ast.Name) \
+                and not s.orelse:                                                       # R14
+            return f'(SFor {gstr(s.target.id)} (XPrim "iter" [{self.expr(s.iter)}]) {self.block(s.body)})'
+        if isinstance(s, ast.Try) and not s.orelse and not s.finalbody and s.handlers:  # R12, R13
+            def kinds(h):
+                names = h.type.elts if isinstance(h.type, ast.Tuple) else [h.type]
+                out = []
+                for n in names:
+                    nm = n.attr if isinstance(n, ast.Attribute) else getattr(n, 'id', None)
+                    if nm not in py2mini.EXC_KINDS:
+                        raise Untranslatable(f'exception class {nm}')
+                    out.append(str(py2mini.EXC_KINDS[nm]))
+                return out
+            if all(h.type is not None for h in s.handlers) and len(s.handlers) <= 2:
+                for h in s.handlers[:-1]:
+                    if not all(self.effect(x) is not None for x in h.body):
+                        raise Untranslatable('a handler that is not the last one must consist of effect statements')
+                term = self.block(s.body)
+                for h in s.handlers:
+                    if h.name is not None:
+                        uses = [n for x in h.body for n in ast.walk(x) if isinstance(n, ast.Name) and n.id == h.name]
+                        calls = [n for x in h.body for n in ast.walk(x)
+                                 if isinstance(n, ast.Call) and isinstance(n.func, ast.Name) and n.func.id == 'str'
+                                 and len(n.args) == 1 and isinstance(n.args[0], ast.Name) and n.args[0].id == h.name]
+                        if len(uses) != len(calls):
+                            raise Untranslatable('exception variable used other than as str(ex)')
+                        self.exc_names = getattr(self, 'exc_names', set()) | {h.name}
+                    term = f'[(STry {term} {glist(kinds(h))} {self.block(h.body)})]'
+                return term[1:-1]
+        if isinstance(s, ast.Expr) and isinstance(s.value, ast.Call) and isinstance(s.value.func, ast.Name) \
+                and s.value.func.id == 'setattr' and len(s.value.args) == 3 and isinstance(s.value.args[0], ast.Name) \
+                and s.value.args[0].id in self.locals and not s.value.keywords:          # R16
+            x = s.value.args[0].id
+            args = glist([self.expr(a) for a in s.value.args])
+            return f'(SAssign (TName {gstr(x)}) (XPrim "builtins.setattr" {args}))'
+        if isinstance(s, ast.Assign) and len(s.targets) == 1 and isinstance(s.targets[0], ast.Attribute):  # R16
+            path, t = [], s.targets[0]
+            while isinstance(t, ast.Attribute):
+                path.append(t.attr)
+                t = t.value
+            if isinstance(t, ast.Name) and t.id in self.locals and t.id != self.self_name:
+                nm = 'setpath:' + '.'.join(reversed(path))
+                return (f'(SAssign (TName {gstr(t.id)}) (XPrim {gstr(nm)} '
+                        f'[(XName {gstr(t.id)}); {self.expr(s.value)}]))')
         if isinstance(s, ast.Raise) and s.exc is not None and s.cause is None:         # R1
             exc = s.exc
             if isinstance(exc, ast.Call) and not exc.keywords and len(exc.args) <= 1:
@@ -177,8 +304,8 @@ class ApiTranslator(FuncTranslator):
     def translate_all(spec, prims=()):
         refs = py2mini.Refs()
         defs, info = [], {}
-        for name, fn, origin in spec:
-            tr = ApiTranslator(fn, refs, prims=prims)
+        for name, fn, origin, *rest in spec:
+            tr = ApiTranslator(fn, refs, prims=prims, **(rest[0] if rest else {}))
             term, defaults = tr.translate()
             defs.append((name, origin, term, defaults))
             info[name] = {'origin': origin, 'lines': len(inspect.getsource(fn).splitlines())}
@@ -220,6 +347,12 @@ def spec_shell():
         ('shell_parseline', D.parseline, 'beanquery.shell.DispatchingShell.parseline'),
         ('shell_onecmd', D.onecmd, 'beanquery.shell.DispatchingShell.onecmd'),
         ('settings_parse_bool', S._parse_bool, 'beanquery.shell.Settings._parse_bool'),
+        ('settings_parse_format', S._parse_format, 'beanquery.shell.Settings._parse_format'),
+        # value receivers: `self` is an ordinary value (a record), so getattr / setattr / todict are primitives
+        ('settings_getstr', S.getstr, 'beanquery.shell.Settings.getstr (self as a value)', {'self_name': None}),
+        ('settings_setstr', S.setstr, 'beanquery.shell.Settings.setstr (self as a value)', {'self_name': None}),
+        ('shell_do_set', D.do_set, 'beanquery.shell.DispatchingShell.do_set'),
+        ('shell_parse', shell.BQLShell.parse, 'beanquery.shell.BQLShell.parse'),
     ]
 
 
